@@ -1319,8 +1319,9 @@ func TestVerif_C08(t *testing.T) {
 	if r.Counter("protected_object_checks") == 0 || r.Counter("tombstone_attempts_on_protected_objects") == 0 || r.Counter("schedules_gc_passes_with_lock_accepted") == 0 {
 		r.Inconclusive("no lock-protected object was exercised")
 	}
-	if r.Counter("tombstone_rollbacks_with_protected_object_away_from_preferred_shard") == 0 {
-		r.Inconclusive("no tombstone broadcast was rolled back for a lock-protected object stored away from its preferred shard")
+	// (attempts, not rollbacks: a tree that rejects such tombstones before touching any shard is fine)
+	if r.Counter("tombstone_attempts_on_protected_objects_stored_away_from_preferred_shard") == 0 {
+		r.Inconclusive("no tombstone was tried against a lock-protected object stored away from its preferred shard")
 	}
 	if sk := r.Counter("cases_skipped_orders_never_matched"); sk*10 > int64(cases+scheds) {
 		r.Inconclusive(fmt.Sprintf("%d cases never ran in their chosen visiting orders", sk))
